@@ -15,6 +15,10 @@ from symx.core import And, Or, Not, Implies, close
 from symx.explore import H
 from harness.graphs import PROGRAMS, Built, Spec
 
+# a start graph with a multi-parent leaf (y) and a second leaf (z) that is not one of its ancestors
+PROGRAMS = dict(PROGRAMS, two_leaves=[Spec('t', 'Prior'), Spec('a', 'Operation', ['t']), Spec('y', 'Operation', ['a', 't']),
+                                      Spec('z', 'Operation', ['t'])])
+
 PROPERTY = 'C14'
 EXPLANATION = ('Solver-chosen edit scripts (add a node, become, remove_node, set parameter_names, set an observation, copy(), '
                'save()/load()) run on real ElfiModels through the public node API (GraphicalModel.add_node/remove_node/add_edge/'
@@ -22,7 +26,8 @@ EXPLANATION = ('Solver-chosen edit scripts (add a node, become, remove_node, set
                'every step the structure is checked, and the model\'s generate() output is compared (EUF validity, operations '
                'uninterpreted) with the denotational meaning of a shadow description that is edited according to the property text.')
 ASSUMPTIONS = [
-    'become(): the replacement is a freshly created node that is not a descendant of the replaced node',
+    'become(): the replacement is a freshly created node or an existing node without children, and not a descendant of the '
+    'replaced node',
     'operations are deterministic (uninterpreted functions); seeds fixed',
     'save/load harness uses concrete constants (symbolic terms cannot be pickled) and picklable operation objects',
 ]
@@ -245,6 +250,13 @@ def do_edit(ctx, E, m, sh, step, counter):
     if op == 1:      # become
         cands = [n for n in names if sh.specs[n].kind != 'Constant']
         x = cands[ctx.choice('become%d_x' % step, len(cands))]
+        # the replacement is either an existing childless node (not x, not below x) or a freshly created one
+        existing = [n for n in cands if n != x and not sh.children(n) and n not in sh.descendants(x)]
+        if existing and ctx.flag('become%d_existing' % step):
+            y = existing[ctx.choice('become%d_y' % step, len(existing))]
+            m[x].become(m[y])
+            sh.become(x, y)
+            return 'become(%s<-existing %s)' % (x, y)
         new = 'r%d' % counter[0]
         counter[0] += 1
         forbidden = sh.descendants(x) | {x}
@@ -373,6 +385,10 @@ HARNESSES = [
       tiers=('thorough',)),
     H('edit3_mini', h_edit, dict(program='mini', steps=3), bounds='program mini (t -> sim -> s), every 3-step script',
       tiers=('thorough',), max_paths=600000),
+    H('edit2_two_leaves', h_edit, dict(program='two_leaves', steps=2),
+      bounds='program two_leaves (t; a(t); y(a,t); z(t)), every 2-step script (become with an existing leaf as replacement)'),
+    H('copy_fork_sims', h_copy, dict(program='fork_sims', steps=1),
+      bounds='program fork_sims (parents passed in another order than created), optional edit, copy, 1 edit of the copy'),
     H('copy_chain', h_copy, dict(program='chain', steps=1), bounds='program chain, optional edit, copy, 1 edit of the copy',
       ),
     H('copy_two_params_named', h_copy, dict(program='two_params_named', steps=1), tiers=('thorough',),
